@@ -42,6 +42,17 @@ INVARIANT NoStuckState
 DESIGN_INVS = ["MachineSatisfiesC05", "AssertionsOnlyOnInfiniteTies", "InstanceWellFormed", "HeuristicsConsistent",
                "VisitedWithOptimalCost", "QueueRevisionSound", "FrontierSound", "NoStuckState"]
 
+CFG_TRACE = """INIT Init
+NEXT Next
+CHECK_DEADLOCK FALSE
+INVARIANT Emit
+INVARIANT MachineSatisfiesC05
+INVARIANT AssertionsOnlyOnInfiniteTies
+INVARIANT VisitedWithOptimalCost
+INVARIANT QueueRevisionSound
+INVARIANT FrontierSound
+"""
+
 CFG_JUDGE = """INIT Init
 NEXT Next
 CHECK_DEADLOCK FALSE
@@ -243,6 +254,7 @@ def build(g, rep, rng):
     as_float = rep["reward_as"] == "float"
     calls = [0]
     cap = 2000 * (N * K + 2)             # a terminating search needs at most N*K successor look-ups
+    visits = []                          # event log: [state whose actions were asked for, [actions tried, in order]]
 
     def tick():
         calls[0] += 1
@@ -251,6 +263,7 @@ def build(g, rep, rng):
 
     def actions(s):
         tick()
+        visits.append([sidx[s] + 1, []])
         acts = [al[a] for a in range(K) if g["avail"][sidx[s]][a]]
         return acts if as_list else tuple(acts)
 
@@ -259,6 +272,10 @@ def build(g, rep, rng):
         i, j = sidx[s], aidx[a]
         if not g["avail"][i][j]:
             raise KeyError(f"action {a!r} is not available in state {s!r}")
+        if visits and visits[-1][0] == i + 1:
+            visits[-1][1].append(j + 1)
+        else:
+            visits.append([0, [j + 1]])       # a successor asked for outside an expansion: explained by no action
         return sl[g["nxt"][i][j] - 1]
 
     def reward(s, a, ns):
@@ -316,7 +333,7 @@ def build(g, rep, rng):
         mdp = _M()
     else:
         raise ValueError(cont)
-    return mdp, sl, al
+    return mdp, sl, al, visits
 
 
 def rand_rep(rng, plain=False):
@@ -376,10 +393,10 @@ def run_real(g, cfg, h2, rep, seed, build_seed):
     """One plan_on of the real planner; the Result projected to abstract (1-based) indices."""
     from msdm.algorithms.search import AStarSearch, BreadthFirstSearch
     rng = random.Random(build_seed)
-    mdp, sl, al = build(g, rep, rng)
+    mdp, sl, al, visits = build(g, rep, rng)
     sidx = {l: i + 1 for i, l in enumerate(sl)}
     aidx = {l: i + 1 for i, l in enumerate(al)}
-    out = {"kind": None, "path": [], "acts": [], "value": -1, "visited": [], "note": ""}
+    out = {"kind": None, "path": [], "acts": [], "value": -1, "visited": [], "note": "", "visits": visits}
     planner_name = "AStarSearch" if cfg["alg"] == "astar" else "BreadthFirstSearch"
     try:
         randomized = cfg["rnd"] == 1 or (cfg["alg"] == "astar" and cfg["tie"] == "random")
@@ -526,6 +543,46 @@ def judge(ctx, graphs, runs, tag="judge"):
     return [(sorted(verd[r["_jid"]]["fails"]), verd[r["_jid"]]["shape"]) for r in runs]
 
 
+def validate_traces(ctx, graphs, runs, tag="trace"):
+    """Pipeline B: the visit events recorded from the real code (through the MDP object handed to the
+    planner - no hook needed) are replayed on the reference machine; a trace is accepted when some
+    behaviour of the machine consumes every event and ends with the same Return event."""
+    batch, owners = [], []
+    for r in runs:
+        res = r["res"]
+        if res["kind"] == "error" and not (res.get("site", "").endswith(".plan_on") and "AssertionError" in res.get("exc", "")):
+            continue                      # rejected before the search started / no-termination: nothing to replay
+        batch.append({"gid": r["gid"], "cfg": r["cfg"], "visits": res["visits"],
+                      "res": {"kind": res["kind"], "path": list(res["path"]), "acts": list(res["acts"]),
+                              "value": res["value"], "visited": list(res["visited"])}})
+        owners.append(r)
+    if not batch:
+        return
+    gl = [dict(graph_for_tlc(g), cfgs=[]) for g in graphs]
+    out = run_tlc(ctx.workdir / tag, MODULE, CFG_TRACE, files={"batch.json": {"graphs": gl, "runs": batch}},
+                  env={"BATCH_FILE": "batch.json", "MODE": "trace"})
+    ctx.add_tlc(out, "trace: visit events recorded from the real planners replayed on the reference machines")
+    bad = [v for v in out.violated if v in DESIGN_INVS]
+    if bad:
+        raise TLCFailure(f"design-level invariant violated while replaying real traces: {sorted(set(bad))}\n"
+                         + (out.traces[0][:3000] if out.traces else ""))
+    acc = {r["tid"] for r in out.records if r["kind"] == "trace" and r["accepted"]}
+    far = {}
+    for r in out.records:
+        if r["kind"] == "trace":
+            far[r["tid"]] = max(far.get(r["tid"], 0), r["consumed"])
+    for k, r in enumerate(owners, start=1):
+        if k in acc:
+            ctx.count("traces_accepted")
+            ctx.count("trace_events_accepted", len(r["res"]["visits"]) + 1)
+        else:
+            ctx.count("traces_not_explained")
+            ctx.drift("trace-not-explained-by-machine",
+                      {"graph": digest(graph_for_tlc(graphs[r["gid"] - 1])), "cfg": r["cfg"], "seed": r["seed"],
+                       "visits": r["res"]["visits"], "events_consumed_by_a_finished_behaviour": far.get(k),
+                       "return": [r["res"]["kind"], r["res"]["path"], r["res"]["visited"]]})
+
+
 def plan_runs(rng, graphs, tier):
     """(graph index, cfg index, rep, seed, build_seed) for every real execution."""
     seeds_per_cfg = 2 if tier == "quick" else 3
@@ -541,7 +598,7 @@ def plan_runs(rng, graphs, tier):
     return plan
 
 
-def judge_cases(ctx, graphs, plan, *, tamper=None, quiet_counts=False):
+def judge_cases(ctx, graphs, plan, *, tamper=None, quiet_counts=False, trace_every=0):
     orc, outcomes = mc(ctx, graphs)
     runs = []
     for (i, c, rep, sd, bs) in plan:
@@ -578,6 +635,8 @@ def judge_cases(ctx, graphs, plan, *, tamper=None, quiet_counts=False):
     if tamper is not None:
         tamper(runs)
     verdicts = judge(ctx, graphs, runs)
+    if trace_every:
+        validate_traces(ctx, graphs, [r for k, r in enumerate(runs) if k % trace_every == 0])
     n_viol = 0
     for r, (fails, shape) in zip(runs, verdicts):
         i, c = r["gid"], r["cid"]
@@ -592,7 +651,7 @@ def judge_cases(ctx, graphs, plan, *, tamper=None, quiet_counts=False):
         planner = "AStarSearch" if cfg["alg"] == "astar" else "BreadthFirstSearch"
         case = {"graph": {k: g[k] for k in ("N", "K", "avail", "nxt", "cost", "goal", "start", "hc")},
                 "cfg": cfg, "rep": r["rep"], "seed": r["seed"], "build_seed": r["build_seed"], "h2": r["h2"],
-                "real": {k: v for k, v in real.items()}}
+                "real": {k: v for k, v in real.items() if k != "visits"}}
         for clause in fails:
             n_viol += 1
             if clause == "returns":
@@ -692,7 +751,7 @@ def run(ctx):
     for k in range(0, len(graphs), chunk):
         part = graphs[k:k + chunk]
         plan = plan_runs(rng, part, ctx.tier)
-        judge_cases(ctx, part, plan)
+        judge_cases(ctx, part, plan, trace_every=3 if ctx.tier == "quick" else 6)
     zero_entry_probe(ctx, graphs, rng)
 
 
@@ -723,7 +782,7 @@ def replay(ctx, case):
     g = dict(case["graph"])
     g["cfgs"] = [case["cfg"]]
     plan = [(1, 1, case["rep"], case["seed"], case["build_seed"])]
-    judge_cases(ctx, [g], plan)
+    judge_cases(ctx, [g], plan, trace_every=1)
 
 
 def selftest(ctx):
